@@ -94,7 +94,11 @@ def sc_validation(name, lines, rc, packages=None, soll=True, describe="", entry=
     ev = GT.make_evaluators(rc_values=rc, fc_rule=fc_rule, packages=packages or {})
     deep = DeepAnwendungshandbuch(meta=AhbMetaInformation(pruefidentifikator="11042"), lines=lines)
 
+    from ahbicht.content_evaluation.fc_evaluators import text_to_be_evaluated_by_format_constraint as text_var
+    STALE = "stale7text-of-the-caller"      # the caller's context already holds a text (e.g. from an earlier direct call): nobody's own input
+
     async def ref():
+        text_var.set(STALE)
         return await validate_deep_anwendungshandbuch(copy.deepcopy(deep), soll_is_required=soll)
 
     GT.G.reset(auto=True, tag_text=True)
@@ -103,7 +107,10 @@ def sc_validation(name, lines, rc, packages=None, soll=True, describe="", entry=
     ref_result = asyncio.run(ref())
     statuses = {r.discriminator: str(r.validation_result.requirement_validation) for r in ref_result}
     plan = validation_plan(deep, ev, statuses)
-    factory = lambda: validate_deep_anwendungshandbuch(copy.deepcopy(deep), soll_is_required=soll)
+    async def factory():
+        text_var.set(STALE)
+        return await validate_deep_anwendungshandbuch(copy.deepcopy(deep), soll_is_required=soll)
+
     if entry == "segment":
         # the first segment of the first group through validate_segment (group requirement IS_REQUIRED)
         from ahbicht.validation.validation import validate_segment
@@ -112,9 +119,12 @@ def sc_validation(name, lines, rc, packages=None, soll=True, describe="", entry=
         full = validation_plan(sub, ev, dict(statuses, wrapper="IS_REQUIRED"))
         plan = full[1][0][1][1][1][0]          # par[group seq[own, par[segment]]] -> the segment's plan
         plan = PL.par(plan)[1][0]
-        factory = lambda: validate_segment(copy.deepcopy(seg), RequirementValidationValue.IS_REQUIRED, soll)
+        async def factory():       # noqa: F811
+            text_var.set(STALE)
+            return await validate_segment(copy.deepcopy(seg), RequirementValidationValue.IS_REQUIRED, soll)
 
         async def ref2():
+            text_var.set(STALE)
             return await validate_segment(copy.deepcopy(seg), RequirementValidationValue.IS_REQUIRED, soll)
         GT.G.reset(auto=True, tag_text=True)
         ref_result = asyncio.run(ref2())
@@ -143,6 +153,7 @@ def sc_validation(name, lines, rc, packages=None, soll=True, describe="", entry=
                 for e in s.data_elements:
                     if isinstance(e, DataElementFreeText):
                         async def one(e=e, st=st):
+                            text_var.set(STALE)
                             return await validate_data_element_freetext(copy.deepcopy(e), RequirementValidationValue(st), soll)
                         GT.G.reset(auto=True, tag_text=True)
                         alone = project([asyncio.run(one())])[0]
@@ -187,6 +198,9 @@ def scenarios(thorough):
                                                                   F_("e2", "Muss [2][932]", "2022-06-01T12:00:00+02:00"),
                                                                   F_("e3", "Muss [3][UB1]", "2022-05-31T22:00:00Z")])])],
                       {1: "F", 2: "F", 3: "F"}, describe="shipped date-time constraints on the same instant written with different offsets"),
+        sc_validation("ubsame", [G_("g1", "Muss", [S_("s1", "Muss", [F_("e1", "X [UB1]", "2022-05-31T22:00:00Z"), F_("e2", "X [UB1]", "2022-05-31T21:00:00Z"),
+                                                                F_("e3", "X [UB1]", "2022-12-31T23:00:00+00:00")])])],
+                      {1: "F"}, describe="elements with one and the same time-condition expression and different inputs (start of a Stromtag or not)"),
         sc_validation("segdirect", [G_("g1", "Muss", [S_("s1", "Muss [1]", [F_("e1", "Muss [2][907]", "k7"), F_("e2", "Soll [3][907] Kann [4]", "m")])])],
                       {1: "F", 2: "F", 3: "F", 4: "F"}, entry="segment", describe="validate_segment called directly: two elements, same key 907, inputs k7 / m"),
         sc_validation("seg11", [G_("g1", "X", [S_("s1", "Muss [1]", [F_("e1", "Muss [2][902] Kann [3][903]", "x2")]),
@@ -199,6 +213,8 @@ def scenarios(thorough):
     ]
     if thorough:
         s += [
+            sc_validation("ubsame2", [G_("g1", "Muss", [S_("s2", "Muss", [F_("e4", "Muss [1][UB2]", "2022-06-01T04:00:00Z"), F_("e5", "Muss [1][UB2]", "2022-06-01T05:00:00Z")])])],
+                          {1: "F"}, describe="two elements with the same Gastag expression and different inputs"),
             sc_validation("seg3", [G_("g1", "Muss", [S_("s1", "Muss", [F_("e1", "Muss [1][901]", "a1"), F_("e2", "Muss [2][901]", "b1"), F_("e3", "Muss [3][901]U[902]", "c2")])])],
                           {1: "F", 2: "F", 3: "F"}, describe="three free-text elements, same key 901, inputs a1/b1/c2"),
             sc_validation("nested", [G_("g1", "Muss [1]", [S_("s1", "Muss", [F_("e1", "Muss [2][905]", "n5")])],
